@@ -5,10 +5,38 @@ from lib import enc, dec, show
 
 PID = "C05"
 
+def check_long(chk, exes):
+    """texts of 32 768 .. 131 073 characters (one long component, or that many segments): chars-required must be the length, capacity
+    length+1 must succeed with the whole text, capacity length must be refused; judged on the implementation alone"""
+    import parsesuite
+    sizes = (32768, 65536, 65537) if chk.tier == "quick" else (32767, 32768, 32769, 65535, 65536, 65537, 131073)
+    texts = [t for n in sizes for t in parsesuite.long_templates(n)]
+    reqs = []; meta = []
+    for t in texts:
+        a = uris.P(t); L = len(t)
+        for c in ("req", L + 1, L, L + 2, L - 1, 65536, 32768):
+            reqs.append("tostring %s %d %s" % (c, (L + (0 if c == "req" else c)) % 2, a)); meta.append((t, c))
+    n = 0
+    for fl in (("A", "W") if chk.tier == "quick" else ("A", "W", "A_asan")):
+        impl = lib.run_lines(exes[fl], reqs, chunks=min(lib.NCPU, len(reqs)))
+        chk.cov["evaluations"] += len(reqs); n += len(reqs)
+        for (t, c), rq, o in zip(meta, reqs, impl):
+            of = o.split(); L = len(t); prob = None
+            if o.startswith("!") or len(of) < 3 or of[0] != "tostring": prob = "malformed result / crash on a long text: " + o[:160]
+            elif int(of[2]) != L: prob = "chars-required is %s for a text of %d characters" % (of[2], L)
+            elif c != "req":
+                if len(of) < 7: prob = "short result"
+                elif of[6] != "1": prob = "wrote beyond the stated capacity (guard zone damaged)"
+                elif c >= L + 1 and (of[3] != "0" or of[4] not in ("-", str(L + 1)) or len(lib.dec(of[5]) or []) != L): prob = "capacity >= length+1 but the call failed or the text is incomplete"
+                elif c < L + 1 and (of[3] != "4" or of[4] not in ("-", "0") or (c >= 1 and of[5] != "_")): prob = "capacity too small but no clean too-long failure"
+            if prob: chk.violation(prob, {"request": rq[:80] + " ... (%d characters: %s...%s)" % (L, t[:12], t[-12:]), "build": fl, "impl": o[:160], "capacity": c})
+    return n
+
 def run(chk):
     proofs = lib.check_proofs(PID)
     exes = lib.build_impl(); mdl = lib.build_model()
     tier = chk.tier
+    check_long(chk, exes)
     pool = uris.parsed_pool(chk, mdl, 700 if tier == "quick" else 12000)
     # IPv6 literals whose spelling is longer / shorter than the 39 characters written for them (no component's own length bounds the
     # capacity that is needed), and every combination of absent / empty / non-empty components
